@@ -325,6 +325,24 @@ def run(ctx):
         cfg.keepgrad = rng.random() < 0.5
         cfg.ops = (['f1'] * cfg.accum + ['s']) * rng.randrange(2, 4)
         cfgs.append(cfg)
+    # directed corner: a clip schedule (callable of the step) that reaches exactly 0 — the gradient written back is nu*V
+    # with nu = 0, not the unclipped V — and convolutions with several input channels and kernels larger than 1x1 whose
+    # A factor has moved away from a multiple of the identity (unequal channel scales come with random weights after a
+    # few iterations with a small decay)
+    for world in (1, 2):
+        cfg = kfacsim.Config(rng, world=world)
+        cfg.hyper['kl_clip'] = [Fraction(1, 100), Fraction(0), Fraction(1, 1000), Fraction(0)]
+        cfg.hyper['lr'] = Fraction(1, 2)
+        cfg.ops = (['f1'] * cfg.accum + ['s']) * 4
+        cfgs.append(cfg)
+    for world in (1, 2):
+        cfg = kfacsim.Config(rng, world=world, nest=False)
+        cfg.arch = [('conv', 2, 3, (2, 2), (1, 1), (1, 0), True), ('flat', 3), ('lin', None, 2, True)]
+        cfg.hyper['factor_decay'] = Fraction(1, 4)
+        cfg.hyper['damping'] = Fraction(1, 100)
+        cfg.hyper['factor_update_steps'], cfg.hyper['inv_update_steps'] = 1, 1
+        cfg.ops = (['f1'] * cfg.accum + ['s']) * 5
+        cfgs.append(cfg)
     kfacsim.run_batch(ctx, cfgs, ('grads',), oracles=(kfacsim.oracle_reference,), whole_only_oracles=False)
 
 
